@@ -68,9 +68,13 @@ func loadCfg() config {
 
 func thorough() bool { return cfg.Tier == "thorough" }
 
+// quickMult scales the per-cell case counts of the quick tier (they were calibrated when
+// the checks were written; the machine has room for more).
+const quickMult = 3
+
 // n picks a per-cell case count by tier.
 func nCases(quick, thor int) int {
-	n := quick
+	n := quick * quickMult
 	if thorough() {
 		n = thor
 	}
